@@ -82,8 +82,8 @@ structure Pin where
 inductive Fault where
   | assertPendingAdd (o : Id)     -- router.cpp:286/690 COLA_ASSERT(no ShapeAdd/JunctionAdd queued) in deleteShape/deleteJunction
   | useAfterFree (o : Id)         -- processActions dereferences an object that has been freed
-  | reentry (o : Id)              -- processTransaction re-entered from inside processActions / ~Router (transactions off)
-  | ctorBeforeRegister (o : Id)   -- ConnRef(router, src, dst) routes before m_reroute_flag_ptr is set (transactions off)
+  | reentry (o : Id)              -- (historic, unused since /repo 448bcee/f871b2f) processTransaction re-entered from processActions / ~Router
+  | ctorBeforeRegister (o : Id)   -- (historic, unused since /repo 3650d5c) ConnRef(router, src, dst) routed before registration
   | notAllocated (o : Id)         -- the caller passed an object that is not allocated (illegal history)
   deriving DecidableEq, Repr, Inhabited
 
@@ -221,18 +221,17 @@ def followers (cs : List Conn) (o : Id) : List (Id × Bool × Anchor) :=
 def procRemoveMove (s : St) (a : Action) : St :=
   if isRemove a.type then
     if !s.hasObst a.obj then s.addFault (.useAfterFree a.obj) else
-    -- the pin destructors run Obstacle::removeConnectionPin → Router::modifyConnectionPin, which calls
-    -- processTransaction() again when transactions are off
-    let s := if !s.consolidate && !(s.pinsOf a.obj).isEmpty then s.addFault (.reentry a.obj) else s
+    -- the pin destructors run Obstacle::removeConnectionPin → Router::modifyConnectionPin; since /repo
+    -- 448bcee processActions forces m_consolidate_actions for its own duration, so nothing re-enters
     let pinActs := (s.pinsOf a.obj).map (fun p => ({ type := .pinChange, obj := p.id } : Action))
     { s.freeObstacle a.obj with actions := s.actions ++ pinActs }
   else if isMove a.type then
     if !s.hasObst a.obj then s.addFault (.useAfterFree a.obj) else
     let fs := followers s.conns a.obj
-    -- ShapeRef/JunctionRef::moveAttachedConns → Router::modifyConnector, which calls
-    -- processTransaction() again when transactions are off
-    let s := if !s.consolidate && !fs.isEmpty then s.addFault (.reentry a.obj) else s
-    let acts := fs.foldl (fun acts f => modifyConn acts f.1 f.2.1 (some f.2.2) (a.type == .shapeMove)) s.actions
+    -- ShapeRef/JunctionRef::moveAttachedConns → Router::modifyConnector(…, connPinMoveUpdate = true) for
+    -- shapes and (since /repo e0e5881) junctions alike: the refresh never overwrites a queued user change;
+    -- no re-entry (448bcee)
+    let acts := fs.foldl (fun acts f => modifyConn acts f.1 f.2.1 (some f.2.2) true) s.actions
     { s with
       actions := acts
       conns := detachAnchor s.conns a.obj                -- Obstacle::makeInactive
@@ -334,15 +333,13 @@ def step (s : St) (op : Op) : St :=
     -- JunctionRef::JunctionRef: Obstacle(), new ShapeConnectionPin(this) (→ modifyConnectionPin), addJunction
     let s := (((s.addObst id true false).addPin pin id centreCls).enqueue .pinChange pin).maybeProcess
     (s.enqueue .junctionAdd id).maybeProcess
-  | .newConn id src dst ctor3 =>
+  | .newConn id src dst _ctor3 =>
     let s := s.addConn id false
-    if ctor3 && !s.consolidate then s.addFault (.ctorBeforeRegister id) else
+    -- since /repo 3650d5c the 3-argument constructor registers the reroute flag first: both forms behave alike
     (((s.modify id false src).maybeProcess).modify id true dst).maybeProcess
   | .newPin pin shape cls =>
     if !s.hasShape shape then s.addFault (.notAllocated shape) else
-    -- the constructor registers the pin (⇒ processTransaction when transactions are off) before the pin's
-    -- vertex exists; rerouting a connector attached to the shape dereferences it (connend.cpp:292)
-    let s := if !s.consolidate && s.attachedCount shape != 0 then s.addFault (.reentry pin) else s
+    -- since /repo f871b2f the pin registers with its shape last (complete when transactions-off routing runs)
     ((s.addPin pin shape cls).enqueue .pinChange pin).maybeProcess
   | .deleteShape id => deleteObstacleOp s id false
   | .deleteJunction id => deleteObstacleOp s id true
@@ -362,9 +359,7 @@ def step (s : St) (op : Op) : St :=
   | .setTransactionUse b => { s with consolidate := b }
   | .deleteRouter =>
     -- ~Router deletes the members of connRefs and m_obstacles, i.e. the active objects
-    let s := if !s.consolidate && !s.actions.isEmpty &&
-                s.obst.any (fun o => o.active && !(s.pinsOf o.id).isEmpty)
-             then s.addFault (.reentry 0) else s
+    -- (since /repo 448bcee ~Router sets m_consolidate_actions: pin destructors only queue)
     let s := (s.conns.filter (·.active)).foldl (fun s c => s.freeConn c.id) s
     let s := (s.obst.filter (·.active)).foldl (fun s o => s.freeObstacle o.id) s
     s.closeRouter
@@ -421,30 +416,21 @@ def LegalDoc (s : St) (op : Op) : Bool :=
     the defect classes K1–K5 found on the unchanged tree (DESIGN.md §6 C15):
     K1 `~Router` only frees *active* objects (queued, never processed additions leak);
     K2 deleteShape/deleteJunction assert when the object's addition is still queued;
-    K3 with transactions off, processActions/~Router re-enter processTransaction through
-       modifyConnectionPin (obstacle with pins deleted) or modifyConnector (obstacle with attached
-       connectors moved), and a pin constructor routes before the pin is complete;
+    (K3 — re-entrant processTransaction with transactions off — and K5 — the 3-argument ConnRef
+       constructor with transactions off — were repaired in /repo 448bcee, f871b2f, 3650d5c; their
+       restrictions are gone from `Legal` and the model no longer raises those faults);
     K4 a queued connector-end change that names an obstacle is used after that obstacle was freed in
        the same transaction;
-    K5 `ConnRef(router, src, dst)` with transactions off routes before the connector is registered. -/
+    -/
 def Legal (s : St) (op : Op) : Bool :=
   LegalDoc s op &&
   match op with
-  | .newConn _ _ _ ctor3 => !ctor3 || s.consolidate                                  -- K5
-  | .newPin _ shape _ => s.consolidate || s.attachedCount shape == 0                 -- K3 (pin constructor)
   | .deleteShape id =>
     !s.hasAction .shapeAdd id &&                                                     -- K2
-    !s.actions.any (mentions · id) &&                                                -- K4
-    (s.consolidate || (s.pinsOf id).isEmpty)                                         -- K3
+    !s.actions.any (mentions · id)                                                   -- K4
   | .deleteJunction id =>
-    !s.hasAction .junctionAdd id && !s.actions.any (mentions · id) &&
-    (s.consolidate || (s.pinsOf id).isEmpty)
-  | .moveShape id => s.consolidate || s.attachedCount id == 0                        -- K3
-  | .moveJunction id => s.consolidate || s.attachedCount id == 0
-  | .setTransactionUse b => b || s.actions.isEmpty                                   -- K3 (queued work processed re-entrantly later)
-  | .deleteRouter =>
-    s.obst.all (·.active) && s.conns.all (·.active) &&                               -- K1
-    (s.consolidate || s.actions.isEmpty)                                             -- K3
+    !s.hasAction .junctionAdd id && !s.actions.any (mentions · id)
+  | .deleteRouter => s.obst.all (·.active) && s.conns.all (·.active)                 -- K1
   | _ => true
 
 /-- all ops of the history are legal in the state they are applied to -/
